@@ -207,7 +207,7 @@ class DnsRecordDnskey(ParsableBase, Serializable):
             key_composer.compose_numeric(exponent_length, 1)
 
         key_composer.compose_mpint(key_params.public_exponent, exponent_length)
-        key_composer.compose_mpint(key_params.modulus, key.key_size // 8)
+        key_composer.compose_mpint(key_params.modulus, (key_params.modulus.bit_length() + 7) // 8)
 
     @staticmethod
     def _compose_public_key_ecdsa(key_composer, key):
